@@ -108,6 +108,12 @@ func (p c14) run(c *core.Ctx) {
 	if gate.expected == 0 {
 		close(gate.all)
 	}
+	// in a fifth of the cases a runner fails: Run returns an error after every closer has been created
+	failedRunner := c.Rng.Intn(5) == 0
+	if failedRunner {
+		k := g.AddNode([]int{17, 19, 30}[c.Rng.Intn(3)], g.FreshName(len(sc.Nodes))) // runner types without Init/Close
+		sc.Nodes[k].Fails = []string{"run"}
+	}
 	g.ShuffleOrders()
 	// stateless (zero-size) closer components: distinct components although their addresses may coincide
 	var zero []any
@@ -144,7 +150,14 @@ func (p c14) run(c *core.Ctx) {
 	c.Count("closers_failing_with_a_typed_nil_error", len(typedNil))
 	r.Go()
 	c.Count("starts", 1)
-	if r.Outcome() != "ok" {
+	if failedRunner {
+		// start-up was aborted by a failing runner: the caller releases what was created with App.Close
+		if r.Outcome() != "error" {
+			c.Fail("", "a runner failed but the start outcome is "+r.Outcome(), failDetail(sc, r, nil))
+			return
+		}
+		c.Count("closes_after_a_failed_runner", 1)
+	} else if r.Outcome() != "ok" {
 		c.Fail("", "start did not succeed: "+core.Short(r.OutcomeDetail(), 300), failDetail(sc, r, nil))
 		return
 	}
